@@ -72,12 +72,22 @@ meta['verification'] = res
 meta['what_was_run'] = ('demo.py on a clean scratch worktree of /repo HEAD and with patch.diff applied; pinned baseline test command with '
                         'the patch applied (stable-pass set compared); ./check <property> --tier quick on a scratch copy of /verif with VERIF_REPO=<patched worktree>')
 print(json.dumps(res, indent=1)[:3000])
+dst = os.path.join('/verif/seeded', sid)
+refresh = os.path.realpath(src) == os.path.realpath(dst)
 if res.get('confirmed'):
-    dst = os.path.join('/verif/seeded', sid)
     os.makedirs(dst, exist_ok=True)
-    shutil.copy(os.path.join(src, 'patch.diff'), dst)
-    shutil.copy(os.path.join(src, 'demo.py'), dst)
+    if not refresh:
+        shutil.copy(os.path.join(src, 'patch.diff'), dst)
+        shutil.copy(os.path.join(src, 'demo.py'), dst)
+    meta.pop('stale_note', None)
     json.dump(meta, open(os.path.join(dst, 'meta.json'), 'w'), indent=1)
     print('KEPT', dst, 'caught_by=', res.get('caught_by'))
+elif refresh and 'error' not in res:
+    # the change applied but its own demonstration no longer fails on HEAD (a later fix: made it harmless)
+    old = json.load(open(os.path.join(dst, 'meta.json')))
+    old['stale_note'] = ('on the current /repo HEAD this change applies but its demonstration no longer fails (demo exit %s with the patch): '
+                         'a later fix: commit made it harmless; verification below is from the HEAD it was made against' % res.get('demo_patched_exit'))
+    json.dump(old, open(os.path.join(dst, 'meta.json'), 'w'), indent=1)
+    print('NOT KEPT (demo no longer fails on HEAD; previous verification kept with a note)')
 else:
     print('NOT KEPT (not confirmed)')
